@@ -50,6 +50,7 @@ type (
 type MacroParam struct{ Name, Type string }
 
 type Macro struct {
+	Opaque bool
 	Name   string
 	Params []MacroParam
 	Ret    string
@@ -84,6 +85,7 @@ type FuncContract struct {
 	Operands []string
 	Defines  []Expr // leaves always defined by the function
 	NoBody   bool
+	Reveal   map[string]bool
 	LocalAssume map[string]*Clause // assumptions on float-derived locals (listed in evidence)
 	Allocates bool
 	Exported  bool
@@ -431,7 +433,7 @@ var clauseKW = map[string]bool{
 	"func": true, "requires": true, "ensures": true, "assigns": true, "nilable": true, "fresh": true,
 	"trusted": true, "layer": true, "loop": true, "props": true, "define": true, "lemma": true,
 	"global": true, "outs": true, "operands": true, "defines": true, "hint": true, "pure": true,
-	"allocates": true, "exported": true, "axiom": true, "local": true,
+	"allocates": true, "exported": true, "axiom": true, "local": true, "reveal": true,
 }
 
 var tagRe = regexp.MustCompile(`^\{([A-Za-z0-9_,\- ]*)\}\s*`)
@@ -619,8 +621,20 @@ func ParseSpecFile(path string) (*Spec, error) {
 				default:
 					panic(fmt.Sprintf("line %d: bad loop clause kind %s", l.no, f[1]))
 				}
+			case "reveal":
+				if cur.Reveal == nil {
+					cur.Reveal = map[string]bool{}
+				}
+				for _, t := range strings.FieldsFunc(rest, func(r rune) bool { return r == ',' || r == ' ' }) {
+					cur.Reveal[t] = true
+				}
 			case "define":
-				// define name(p: T, ...): T = expr
+				// define [opaque] name(p: T, ...): T = expr
+				opaque := false
+				if strings.HasPrefix(rest, "opaque ") {
+					opaque = true
+					rest = strings.TrimSpace(rest[7:])
+				}
 				i := strings.Index(rest, "(")
 				name := strings.TrimSpace(rest[:i])
 				j := matchParen(rest, i)
@@ -632,7 +646,7 @@ func ParseSpecFile(path string) (*Spec, error) {
 				k := strings.Index(tail, "=")
 				ret := strings.TrimSpace(tail[1:k])
 				body := mustExpr(tail[k+1:], l.no)
-				sp.Macros[name] = &Macro{Name: name, Params: params, Ret: ret, Body: body}
+				sp.Macros[name] = &Macro{Name: name, Params: params, Ret: ret, Body: body, Opaque: opaque}
 			case "lemma", "axiom":
 				// lemma {tags} name(p: T, ...): expr
 				tags, _, r := splitTags(rest)
